@@ -21,9 +21,9 @@ from ..observe import arun as _arun
 
 ID = "C18"
 LEVEL = "exploration"
-BUDGET = {"quick": 800, "thorough": 10000}
+BUDGET = {"quick": 1200, "thorough": 10000}
 STEPS = {"quick": 14, "thorough": 30}
-SHARDS = {"quick": 8, "thorough": 16}
+SHARDS = {"quick": 16, "thorough": 16}
 RULE = (
     "Hypothesis rule-based state machine over a pool of 1-3 graph objects built once from generated acyclic programs (3-6 nodes, "
     "optionally with a nested interval, inner/outer bindings of mutable objects, a graph-level select that excludes the nested "
